@@ -182,6 +182,23 @@ static void ransac_case(vh::Ctx & c, vh::Rng & r, const char * tname)
     Sx[i] = make_point<P>(s); Tg[i] = make_point<P>(q);
     C[i] = Correspondence(i, i);
   }
+  // pairing layout: a correspondence is a pair of indexes and nothing requires them to be equal.
+  // 0: index aligned (what ICP hands over); 1: the target cloud is stored in its own order, so
+  // pair i is (i, perm[i]); 2: as 1 and the list of pairs itself is in arbitrary order
+  // (drawn from a separate stream so that the point sets of a case do not depend on the layout)
+  vh::Rng rl(c.seed, c.cur, 7);
+  const int layout = (int)rl.range(0, 2);
+  if (layout >= 1) {
+    std::vector<int> perm(n);
+    for (int i = 0; i < n; ++i) {perm[i] = i;}
+    for (int i = n; i > 1; --i) {std::swap(perm[i - 1], perm[rl.range(0, i - 1)]);}
+    PointSet<P> Tp(n);
+    for (int i = 0; i < n; ++i) {Tp[perm[i]] = Tg[i]; C[i] = Correspondence(i, perm[i]);}
+    Tg = Tp;
+    if (layout == 2) {
+      for (int i = n; i > 1; --i) {std::swap(C[i - 1], C[rl.range(0, i - 1)]);}
+    }
+  }
   RansacRigidTransformationModel<P> model;
   Ransac ransac(&model, sigma);
   model.loadPointSets(&Sx, &Tg);
@@ -198,12 +215,14 @@ static void ransac_case(vh::Ctx & c, vh::Rng & r, const char * tname)
         {"is_float", (double)(sizeof(S) == 4)}, {"homogeneous", (double)Tr<P>::HOMOGENEOUS}};
     };
   auto wit = [&]() {
-      return vh::J().s("part", "ransac").s("type", tname).f("pairs", n).f("sigma", sigma).f("outliers", nout).boolean("outliers_share_one_displacement", coherent)
+      return vh::J().s("part", "ransac").s("type", tname).f("pairs", n).f("sigma", sigma).f("outliers", nout).f("pairing_layout", layout).boolean("outliers_share_one_displacement", coherent)
              .f("angle", ang).raw("t", vh::jvec(t)).boolean("estimateModel_returned", ok).f("frobenius_error", err)
              .f("consensus_rmse", rmse).str();
     };
   c.cat(std::string("ransac_") + tname);
   if (coherent) {c.cat("ransac_coherent_outlier_group");}
+  c.cat(layout == 0 ? "ransac_pairs_index_aligned" : (layout == 1 ? "ransac_pairs_permuted_target" : "ransac_pairs_permuted_and_shuffled_list"));
+  if (layout >= 1 && nout == 0) {c.cat("ransac_permuted_pairs_no_outliers");}
   c.cat(nout == 0 ? "ransac_no_outliers" : ((double)nout / n < 0.05 ? "ransac_outliers_lt_5pct" : "ransac_outliers_5_to_30pct"));
   c.distinct(vh::hash_doubles({2.0, (double)D, (double)n, sigma, (double)nout, (double)ang, (double)t(0)}), (double)nout / n >= 0.05);
   c.sample(std::string("ransac_") + (D == 2 ? "2D" : "3D"), wit);
@@ -232,5 +251,5 @@ static void one_case(vh::Ctx & c, uint64_t idx)
 
 int main(int argc, char ** argv)
 {
-  return vh::run(argc, argv, "C06", {12000, 400000}, one_case);
+  return vh::run(argc, argv, "C06", {80000, 400000}, one_case);
 }
